@@ -1,8 +1,51 @@
 import VelaVerif.Model.TfliteWriter
 import VelaVerif.Model.TfliteReader
 import VelaVerif.Spec.TfliteFile
-/-! # C11 / C14 — the TFLite writer and reader (theorems; under construction) -/
+import VelaVerif.Lemmas.TfliteWriter
+/-!
+# C11 / C14 — the TFLite writer and reader (Model/TfliteWriter.lean, Model/TfliteReader.lean)
+
+What the file says is a function of the graph description alone; every index written is in range and refers to the intended
+entity; quantisation fields are copied tensor by tensor; the reader attaches the full range of the element type.
+-/
 namespace VelaVerif.Props.C11Writer
-open VelaVerif.Tflite
+open VelaVerif.Tflite VelaVerif.Tflite.Writer VelaVerif.OpIndices
+
+/-! ## (b) the file is a function of the graph description alone
+
+The writer walks one unordered collection: `set((op.type, custom_code, version) for op in all_ops)`, which it sorts. Every
+other collection it walks is a list or an insertion-ordered `dict` (`tensor_set`, `tensor_map_sg`, `buffer_map`,
+`operator_code_map`: filled and read in an order fixed by the graph), so the model has no further parameter. -/
+
+/-- **write_deterministic.** Whatever order `enum` the set of operator codes is iterated in (any permutation of its
+elements), the file is the one `write` produces — including the cases in which writing fails. -/
+theorem write_deterministic (d : Desc) (enum : List Code)
+    (hp : ∀ subs, (subgraphsToWrite d).mapM (prepSub d.tensors) = .ok subs → enum.Perm (codeSet subs)) :
+    writeWith d enum = write d := by
+  cases h : (subgraphsToWrite d).mapM (prepSub d.tensors) with
+  | error e =>
+    obtain ⟨h1, h2⟩ := write_err d e h enum
+    rw [h1, h2]
+  | ok subs =>
+    rw [write_eq d subs h]
+    exact writeWith_congr d _ _ (sortCodes_perm _ _ (hp subs h))
+
+/-- the collection really is a set: no code occurs twice, so "permutation of its elements" is the right quantifier -/
+theorem operator_code_set_nodup (subs : List PSub) : (codeSet subs).Nodup := codeSet_nodup subs
+
+/-- the sort key is the whole triple, and the order on triples is a total order: two codes that compare equal both ways are
+the same code. This is what makes the sorted list independent of the iteration order (`permutation_invariant_iff` of
+Props/C14: invariance holds iff the key separates the elements). -/
+theorem operator_code_order_separates (a b : Code) (h1 : Code.le a b = true) (h2 : Code.le b a = true) : a = b :=
+  Code.le_antisymm a b h1 h2
+
+/-- A key that forgets the custom code and the version (seeded change C14-r3m2: `key=lambda op_code: op_code[0]`) does not
+separate: two third-party custom operators come out in the order in which the set happened to be iterated. -/
+theorem sort_by_type_only_witness :
+    let foo : Code := { opId := 40, custom := [70, 111, 111], version := 1 }
+    let bar : Code := { opId := 40, custom := [66, 97, 114], version := 1 }
+    isort (fun a b : Code => decide (a.opId ≤ b.opId)) [foo, bar] ≠ isort (fun a b : Code => decide (a.opId ≤ b.opId)) [bar, foo] ∧
+    sortCodes [foo, bar] = sortCodes [bar, foo] := by
+  decide
 
 end VelaVerif.Props.C11Writer
